@@ -318,7 +318,7 @@ pub fn run(a: &Args, rep: &mut Report) {
             }
         }
     }
-    let n = a.budget(1_000_000, 200_000_000);
+    let n = a.budget(4_000_000, 200_000_000);
     for i in 0..n {
         let (x, c) = gen::canon(&mut r);
         forward(rep, x, c);
